@@ -404,6 +404,16 @@ func Monitor(spec *Spec, tr *Trace) []Finding {
 		if tr.PreSortBad != "" && gi == 0 {
 			add("C16", "%s", tr.PreSortBad)
 		}
+		if gi == 0 && spec.PreLink && !spec.PreFail {
+			for k, n := range tr.PreExec {
+				if n > 1 {
+					add("C13", "task pre%d of the earlier Run was entered %d times over the two Runs of the graph", k, n)
+				}
+				if spec.PreSkip && k > 0 && n > 0 {
+					add("C13", "task pre%d was entered although its dependency pre%d returned ErrorSkipParents in the earlier Run of the graph", k, k-1)
+				}
+			}
+		}
 		if ng == 1 && spec.PreTasks == 0 {
 			if tr.SortErr != "" {
 				add("C16", "DepthFirstSort of an acyclic graph failed: %s", tr.SortErr)
